@@ -211,6 +211,12 @@ func isUntyped(pkg *Package, typ types.Type) bool {
 }
 
 func toChanType(pkg *Package, t *types.Chan) ast.Expr {
+	if t.Dir() == types.SendRecv {
+		if e, ok := t.Elem().(*types.Chan); ok && e.Dir() == types.RecvOnly {
+			// chan (<-chan T) needs its parentheses: `chan <-chan T` reads as chan<- (chan T)
+			return &ast.ChanType{Value: &ast.ParenExpr{X: toType(pkg, e)}, Dir: chanDirs[t.Dir()]}
+		}
+	}
 	return &ast.ChanType{Value: toType(pkg, t.Elem()), Dir: chanDirs[t.Dir()]}
 }
 
